@@ -1156,6 +1156,11 @@ class Interp:
         if isinstance(fn, type) and issubclass(fn, BaseException):
             return fn(*[a if self.concrete(a) else "<symbolic>" for a in args])
         slf = getattr(fn, "__self__", None)
+        if isinstance(slf, (set, frozenset)) and getattr(fn, "__name__", "") in ("isdisjoint", "issubset", "issuperset", "intersection", "union", "difference", "__and__", "__or__", "__sub__") and not kwargs \
+                and all(isinstance(a, (dict, collections.OrderedDict)) and all(self.concrete(k) for k in a) for a in args if isinstance(a, dict)) and any(isinstance(a, dict) for a in args):
+            # set algebra against a mapping looks at the mapping's keys only
+            args = [list(a.keys()) if isinstance(a, dict) else a for a in args]
+            allv = list(args)
         shape_only = (
             fn in SHAPE_ONLY
             or (isinstance(slf, list) and fn.__name__ in ("append", "pop", "extend", "insert", "reverse", "copy", "clear"))
